@@ -11,6 +11,8 @@ Section ValInd.
   Hypothesis HB : forall b, P (VBool b).
   Hypothesis HI : forall z, P (VInt z).
   Hypothesis HL : forall m l, Forall P l -> P (VList m l).
+  Hypothesis HS : forall s, P (VStr s).
+  Hypothesis HD : forall m d, Forall (fun kv => P (fst kv) /\ P (snd kv)) d -> P (VDict m d).
   Fixpoint val_ind' (v : val) : P v :=
     match v with
     | VNull => HN
@@ -22,6 +24,13 @@ Section ValInd.
                    | [] => Forall_nil P
                    | x :: r => Forall_cons x (val_ind' x) (go r)
                    end) l)
+    | VStr s => HS s
+    | VDict m d =>
+        HD m d ((fix go (d : list (val * val)) : Forall (fun kv => P (fst kv) /\ P (snd kv)) d :=
+                   match d with
+                   | [] => Forall_nil _
+                   | kv :: r => Forall_cons kv (conj (val_ind' (fst kv)) (val_ind' (snd kv))) (go r)
+                   end) d)
     end.
 End ValInd.
 
@@ -32,19 +41,36 @@ Proof.
   rewrite IH. reflexivity.
 Qed.
 
+Definition kv_eqb (p q : val * val) : bool := val_eqb (fst p) (fst q) && val_eqb (snd p) (snd q).
+
+Lemma val_eqb_dict m m' d d' : val_eqb (VDict m d) (VDict m' d') = list_eqb kv_eqb d d'.
+Proof.
+  cbn [val_eqb]. revert d'. induction d as [|[k v] r IH]; intros [|[k' v'] r']; cbn; try reflexivity.
+  rewrite IH. reflexivity.
+Qed.
+
+Lemma zlist_eqb_eq a : forall b, list_eqb Z.eqb a b = true <-> a = b.
+Proof.
+  induction a as [|x r IH]; intros [|y r']; cbn; split; intro H; try discriminate; try reflexivity.
+  - apply andb_true_iff in H as [H1 H2]. apply Z.eqb_eq in H1. apply IH in H2. subst. reflexivity.
+  - injection H as -> ->. rewrite Z.eqb_refl. cbn. apply IH. reflexivity.
+Qed.
+
 Lemma val_eqb_refl a : val_eqb a a = true.
 Proof.
-  induction a as [| b | z | m l IH] using val_ind'.
+  induction a as [| b | z | m l IH | s | m d IH] using val_ind'.
   - reflexivity.
   - cbn. apply eqb_reflx.
   - cbn. apply Z.eqb_refl.
   - rewrite val_eqb_list, eqb_reflx. cbn.
     induction IH as [|x r Hx _ IHr]; cbn; [reflexivity|]. rewrite Hx, IHr. reflexivity.
+  - cbn. apply zlist_eqb_eq. reflexivity.
+  - rewrite val_eqb_dict. induction IH as [|kv r [Hk Hv] _ IHr]; cbn; [reflexivity|]. unfold kv_eqb at 1. rewrite Hk, Hv, IHr. reflexivity.
 Qed.
 
 Lemma val_eqb_sym a : forall b, val_eqb a b = val_eqb b a.
 Proof.
-  induction a as [| b | z | m l IH] using val_ind'; intros [| b' | z' | m' l']; try reflexivity.
+  induction a as [| b | z | m l IH | s | m d IH] using val_ind'; intros [| b' | z' | m' l' | s' | m' d']; try reflexivity.
   - cbn. destruct b, b'; reflexivity.
   - cbn. apply Z.eqb_sym.
   - cbn. apply Z.eqb_sym.
@@ -52,19 +78,30 @@ Proof.
   - rewrite !val_eqb_list. f_equal; [destruct m, m'; reflexivity|].
     revert l'. induction IH as [|x r Hx _ IHr]; intros [|y r']; cbn; try reflexivity.
     rewrite Hx, IHr. reflexivity.
+  - cbn. destruct (list_eqb Z.eqb s s') eqn:E1, (list_eqb Z.eqb s' s) eqn:E2; try reflexivity.
+    + apply zlist_eqb_eq in E1. subst. rewrite (proj2 (zlist_eqb_eq s' s') eq_refl) in E2. discriminate E2.
+    + apply zlist_eqb_eq in E2. subst. rewrite (proj2 (zlist_eqb_eq s s) eq_refl) in E1. discriminate E1.
+  - rewrite !val_eqb_dict. revert d'. induction IH as [|kv r [Hk Hv] _ IHr]; intros [|kv' r']; cbn; try reflexivity.
+    unfold kv_eqb at 1 3. rewrite Hk, Hv, IHr. reflexivity.
 Qed.
 
 Lemma val_eqb_trans a : forall b c, val_eqb a b = true -> val_eqb b c = true -> val_eqb a c = true.
 Proof.
-  induction a as [| x | x | m l IH] using val_ind'; intros b c H1 H2;
-    destruct b as [| y | y | m' l']; try discriminate H1;
-    destruct c as [| z | z | m'' l'']; try discriminate H2; try reflexivity.
+  induction a as [| x | x | m l IH | s | m d IH] using val_ind'; intros b c H1 H2;
+    destruct b as [| y | y | m' l' | s' | m' d']; try discriminate H1;
+    destruct c as [| z | z | m'' l'' | s'' | m'' d'']; try discriminate H2; try reflexivity.
   1-8: cbn [val_eqb] in *; repeat match goal with b : bool |- _ => destruct b end; cbn [Bool.eqb] in *; lia.
-  rewrite val_eqb_list in *. apply andb_true_iff in H1 as [M1 L1]. apply andb_true_iff in H2 as [M2 L2].
-  apply andb_true_iff. split; [destruct m, m', m''; try reflexivity; discriminate|].
-  revert l' l'' L1 L2. induction IH as [|x r Hx _ IHr]; intros [|y r'] [|z r''] L1 L2; cbn in *; try reflexivity; try discriminate.
-  apply andb_true_iff in L1 as [A1 B1]. apply andb_true_iff in L2 as [A2 B2].
-  rewrite (Hx y z A1 A2), (IHr r' r'' B1 B2). reflexivity.
+  - rewrite val_eqb_list in *. apply andb_true_iff in H1 as [M1 L1]. apply andb_true_iff in H2 as [M2 L2].
+    apply andb_true_iff. split; [destruct m, m', m''; try reflexivity; discriminate|].
+    revert l' l'' L1 L2. induction IH as [|x r Hx _ IHr]; intros [|y r'] [|z r''] L1 L2; cbn in *; try reflexivity; try discriminate.
+    apply andb_true_iff in L1 as [A1 B1]. apply andb_true_iff in L2 as [A2 B2].
+    rewrite (Hx y z A1 A2), (IHr r' r'' B1 B2). reflexivity.
+  - cbn in *. apply zlist_eqb_eq in H1. apply zlist_eqb_eq in H2. subst. apply zlist_eqb_eq. reflexivity.
+  - rewrite val_eqb_dict in *. revert d' d'' H1 H2.
+    induction IH as [|kv r [Hk Hv] _ IHr]; intros [|kv' r'] [|kv'' r''] L1 L2; cbn in *; try reflexivity; try discriminate.
+    apply andb_true_iff in L1 as [A1 B1]. apply andb_true_iff in L2 as [A2 B2].
+    unfold kv_eqb in A1, A2. apply andb_true_iff in A1 as [K1 V1]. apply andb_true_iff in A2 as [K2 V2].
+    unfold kv_eqb at 1. rewrite (Hk _ _ K1 K2), (Hv _ _ V1 V2), (IHr r' r'' B1 B2). reflexivity.
 Qed.
 
 (* ---- subsequences -------------------------------------------------------------- *)
